@@ -328,7 +328,7 @@ Definition field_update (t : rty) (i : nat) (uid : Z) (v : value) (f : list Z) :
   write_at (Z.to_nat (go_size t * (uid - 1) + field_off t i)) (encode (field_ty t i) v) f.
 
 Definition uid_is_valid (c : cfg) (uid : Z) : bool := (1 <=? uid) && (uid <=? max_users c).   (* UID.IsValid *)
-Definition uid_ok_money (c : cfg) (uid : Z) : bool := negb ((uid <? 1) || (max_users c <=? uid)).   (* cache/passwd.go, as coded *)
+Definition uid_ok_money (c : cfg) (uid : Z) : bool := negb ((uid <? 1) || (max_users c <? uid)).   (* cache/passwd.go passwdUpdateMoney, after fix fcc0c19: uid > MAX_USERS is refused *)
 
 Definition userec (c : cfg) : rty := match lookup "UserecRaw" (env c) with Some t => t | None => RStruct [] end.
 Definition userec2 (c : cfg) : rty := match lookup "Userec2Raw" (env c) with Some t => t | None => RStruct [] end.
